@@ -191,6 +191,7 @@ func (c *SchemaCtx) IssueFromCoerce(err error) *ZogIssue {
 	e.Message = ""
 	e.Dtype = c.DType
 	e.Value = c.Data
+	e.Params = nil
 	e.Err = err
 	return e
 }
